@@ -88,6 +88,10 @@ pub struct BasicOpts {
     pub fault_start: Ns,
     /// rustls server configuration to use instead of the default one
     pub server_tls: Option<quinn_proto::rustls::ServerConfig>,
+    /// max_udp_payload_size values an endpoint may advertise (one entry: no draw)
+    pub udp_payload_choices: Vec<u16>,
+    /// link MTU at the start of the world (one entry: no draw)
+    pub link_mtu_choices: Vec<usize>,
 }
 
 impl Default for BasicOpts {
@@ -130,6 +134,8 @@ impl Default for BasicOpts {
             force_client_pad: false,
             fault_start: 0,
             server_tls: None,
+            udp_payload_choices: vec![1472],
+            link_mtu_choices: vec![65_535],
         }
     }
 }
@@ -155,6 +161,9 @@ pub struct Basic {
     /// bytes a client / server application may plan to send (feasibility under tiny windows)
     pub budget_c: u64,
     pub budget_s: u64,
+    /// max_udp_payload_size advertised by the server / by each client endpoint
+    pub udp_payload_s: u16,
+    pub udp_payload_c: Vec<u16>,
 }
 
 impl Basic {
@@ -206,7 +215,8 @@ impl Basic {
         let cid_choices: Vec<usize> = opts.cid_len_choices.iter().copied().filter(|l| (*l != 0 || opts.conns_per_client == 1) && (*l == 0 || *l >= 4 || !multi)).collect();
         let cid_len = *w.ch.pick("basic.cid_len", &cid_choices);
         let gso_s = 1 + w.ch.choose("basic.gso_s", 10) as usize;
-        let sep = EpOpts { seed: 0x5E47 ^ w.ch.choose("basic.epseed", 1 << 16) as u64, cid_len, cid_lifetime: opts.cid_lifetime_ms.map(Duration::from_millis), ..Default::default() };
+        let sep = EpOpts { seed: 0x5E47 ^ w.ch.choose("basic.epseed", 1 << 16) as u64, cid_len, cid_lifetime: opts.cid_lifetime_ms.map(Duration::from_millis), max_udp_payload: *w.ch.pick("basic.udp_payload_s", &opts.udp_payload_choices), ..Default::default() };
+        w.net.mtu = *w.ch.pick("basic.link_mtu", &opts.link_mtu_choices);
         let st = Arc::new(sk.build());
         let tls_s = opts.server_tls.clone().unwrap_or_else(|| cfgs::rustls_server(opts.big_cert, true));
         let crypto_s = if opts.use_tap { cfgs::tapped_server_crypto(&w.tap, 0, tls_s) } else { cfgs::untapped_server_crypto(tls_s) };
@@ -220,12 +230,14 @@ impl Basic {
 
         let mut clients = Vec::new();
         let mut client_cfgs = Vec::new();
+        let mut udp_payload_c = Vec::new();
         let ct = Arc::new(ck.build());
         for i in 0..opts.n_clients {
             let node_id = 1 + i;
             let ccid = *w.ch.pick("basic.ccid_len", &cid_choices);
             let gso_c = 1 + w.ch.choose("basic.gso_c", 10) as usize;
-            let cep = EpOpts { seed: 0xC11E ^ (i as u64) << 20 ^ w.ch.choose("basic.cepseed", 1 << 16) as u64, cid_len: ccid, cid_lifetime: opts.cid_lifetime_ms.map(Duration::from_millis), reset_key_seed: 100 + i as u64, ..Default::default() };
+            let cep = EpOpts { seed: 0xC11E ^ (i as u64) << 20 ^ w.ch.choose("basic.cepseed", 1 << 16) as u64, cid_len: ccid, cid_lifetime: opts.cid_lifetime_ms.map(Duration::from_millis), reset_key_seed: 100 + i as u64, max_udp_payload: *w.ch.pick("basic.udp_payload_c", &opts.udp_payload_choices), ..Default::default() };
+            udp_payload_c.push(cep.max_udp_payload);
             let ep = Endpoint::new(Arc::new(cfgs::endpoint_config(&cep)), None, true);
             let n = w.add_node(ep, cfgs::addr(node_id, 0), ccid, gso_c);
             w.reset_key_seeds.insert(n, cep.reset_key_seed);
@@ -317,6 +329,8 @@ impl Basic {
         let mut this = Self {
             budget_c,
             budget_s,
+            udp_payload_s: sep.max_udp_payload,
+            udp_payload_c,
             wl: Workload::new(opts.wl.clone()),
             oracles: Vec::new(),
             server,
